@@ -43,6 +43,9 @@ DOCS = {
     'table-probe-code': 'para\n    x | y\n    ---|---\n    1 | 2\n',
     'table-probe-html': '<a title="|">\n---|---\n1 | 2\n',
     'table-line2': 'head\nq | r\n:-:|--:\ns | t\nu | v\n',
+    'blank-item-ol': '- a\n-\n\n1. b\n',            # a blank item between items (a buffer that is written to after List.read)
+    'blank-item-ul': '- a\n-\n\n- b\n',
+    'blank-item-last': '- a\n-\n\npara\n',
     'toc-def': '# t\n\n## [l]: /leak\n\n## [r]: </leak2> "x"\n',
     'toc-ref': '# t\n\n## [l] x\n\n## y [r]\n',
     'ext': '$x$ [[a|b]] {{m}}\ntext\n{{/m}}\n\n- item\n  > q `c`\n',
